@@ -228,7 +228,80 @@ def _store(base, proj, v):
     raise Unrecognised("store through projection %r of %r" % (pr, base))
 
 
-def run(body, start_bb, env, call=None, max_steps=400, prog=None, depth=0, inline=False, symvals=None):
+_TYSUB = []     # type substitutions of the generic functions being interpreted (innermost last): {parameter name: type index}
+
+
+def _rty(prog, ix):
+    """type `ix` as seen from the function being interpreted: a bare type parameter stands for what the caller instantiated it with"""
+    seen = 0
+    while _TYSUB and _TYSUB[-1] and isinstance(ix, int) and seen < 4:
+        t = prog.types[ix]
+        if t["k"] == "param" and t.get("n") in _TYSUB[-1] and _TYSUB[-1][t["n"]] != ix:
+            ix = _TYSUB[-1][t["n"]]
+            seen += 1
+        else:
+            break
+    return ix
+
+
+def _unify(prog, pat, conc, binds, depth=0):
+    """does the impl self type `pat` (may mention impl parameters) match the concrete type `conc`?  binds parameters on the way"""
+    if depth > 6:
+        return False
+    p, c = prog.types[pat], prog.types[conc]
+    if p["k"] == "param":
+        if p["n"] in binds:
+            return binds[p["n"]] == conc
+        binds[p["n"]] = conc
+        return True
+    if p["k"] != c["k"]:
+        return False
+    if p["k"] == "adt":
+        if p["d"] != c["d"]:
+            return False
+        pa = [a for a in p.get("a", []) if isinstance(a, int)]
+        ca = [a for a in c.get("a", []) if isinstance(a, int)]
+        return len(pa) == len(ca) and all(_unify(prog, x, y, binds, depth + 1) for x, y in zip(pa, ca))
+    if p["k"] in ("ref", "ptr", "slice", "array"):
+        return isinstance(p.get("t"), int) and isinstance(c.get("t"), int) and _unify(prog, p["t"], c["t"], binds, depth + 1)
+    if p["k"] == "tuple":
+        return len(p.get("ts", [])) == len(c.get("ts", [])) and all(_unify(prog, x, y, binds, depth + 1) for x, y in zip(p["ts"], c["ts"]))
+    return p.get("s") == c.get("s")
+
+
+def _dispatch(prog, t):
+    """(method body path, type substitution) for a call of a method of a crate-local trait whose receiver type is known through the substitution in force"""
+    tr = t.get("trait") or ""
+    if not tr.startswith(prog.crate + "::") or not t.get("gargs") or not isinstance(t["gargs"][0], int):
+        return None
+    self_ty = _rty(prog, t["gargs"][0])
+    if prog.types[self_ty]["k"] == "param":
+        return None
+    hits = []
+    for imp in prog.impls_of(tr):
+        binds = {}
+        if _unify(prog, imp["self_ty"], self_ty, binds):
+            hits.append((imp, binds))
+    if len(hits) != 1:
+        return None
+    imp, binds = hits[0]
+    its = [it for it in imp["items"] if it["name"] == t.get("method") and it["kind"].startswith("Fn")]
+    if len(its) != 1 or its[0]["path"] not in prog._bodies_raw:
+        return None
+    return its[0]["path"], binds
+
+
+def _callee_tysub(prog, tgt, t):
+    """substitution for an inlined generic callee: its parameters, in order, are the call's generic arguments"""
+    f = prog.fns.get(tgt) or {}
+    gens = [g["name"] for g in f.get("generics", []) if g.get("kind") == "type"]
+    gargs = [_rty(prog, g) for g in (t.get("rargs") or t.get("gargs") or []) if isinstance(g, int)]
+    if gens and len(gargs) >= len(gens):
+        return dict(zip(gens, gargs[-len(gens):]))
+    return {}
+
+
+def run(body, start_bb, env, call=None, max_steps=400, prog=None, depth=0, inline=False, symvals=None, tysub=None):
     """Interpret `body` from block start_bb with initial local environment env {local: value}.
     Values: int/bool, Sym, ('tuple', [...]), ('variant', name, [...]), ('closure', path, upvars).
     With `prog`, Option combinators taking closures are interpreted by running the closure bodies.
@@ -241,6 +314,12 @@ def run(body, start_bb, env, call=None, max_steps=400, prog=None, depth=0, inlin
             return run(body, start_bb, env, call=call, max_steps=max_steps, prog=prog, depth=depth, inline=inline, symvals=None)
         finally:
             _SYMVALS.pop()
+    if tysub is not None:
+        _TYSUB.append(tysub)
+        try:
+            return run(body, start_bb, env, call=call, max_steps=max_steps, prog=prog, depth=depth, inline=inline, symvals=None, tysub=None)
+        finally:
+            _TYSUB.pop()
     symvals = _SYMVALS[-1] if _SYMVALS else None
     env = dict(env)
     bb = start_bb
@@ -529,8 +608,18 @@ def run(body, start_bb, env, call=None, max_steps=400, prog=None, depth=0, inlin
                     if tgt in prog._bodies_raw:
                         cb = prog.body(tgt)
                         if cb is not None and cb.arg_count == len(args):
-                            v = run(cb, 0, {i + 1: a for i, a in enumerate(args)}, call=call, prog=prog, depth=depth + 1, inline=True)
+                            v = run(cb, 0, {i + 1: a for i, a in enumerate(args)}, call=call, prog=prog, depth=depth + 1, inline=True,
+                                    tysub=_callee_tysub(prog, tgt, t))
                             break
+            if v is None and inline and prog is not None:
+                # a method of a private trait called through a type parameter: the impl for the type the caller instantiated it with
+                dsp = _dispatch(prog, t)
+                if dsp is not None:
+                    cb = prog.body(dsp[0])
+                    if cb is not None and cb.arg_count == len(args):
+                        sub_ = dict(dsp[1])
+                        sub_.update({k_: v_ for k_, v_ in _callee_tysub(prog, dsp[0], t).items() if k_ not in sub_})
+                        v = run(cb, 0, {i + 1: a for i, a in enumerate(args)}, call=call, prog=prog, depth=depth + 1, inline=True, tysub=sub_)
             if v is None:
                 raise Unrecognised("call to %s with %r" % (name, args))
             if t["dest"]["p"]:
